@@ -20,6 +20,17 @@ def run_attrs(pid, tier):
     cov = pl.base_coverage()
     n_checked = n_model = 0
     seen = set()
+
+    def strip_docs(inp):
+        def walk(x):
+            if isinstance(x, dict):
+                return {k: ([] if k == "doc" else walk(v)) for k, v in x.items()}
+            if isinstance(x, list):
+                return [walk(v) for v in x]
+            return x
+        return sha(json.dumps(walk(inp), sort_keys=True))
+
+    plain_ok = {sha(json.dumps(c["input"], sort_keys=True)) for c, o in pl.pairs() if o["accepted"]}
     for case, obs in pl.pairs():
         cid = case["id"]
         key = sha(json.dumps(case["input"], sort_keys=True))
@@ -31,7 +42,13 @@ def run_attrs(pid, tier):
         elif obs["accepted"]:
             d += conform.files_drift(case["mirror"]["out"], obs.get("files"))
         res.add_drift(d, cid)
-        if key in seen or not obs["accepted"]:
+        if key in seen:
+            continue
+        if not obs["accepted"]:
+            # documentation is never a reason to reject: the same description without any doc comment builds
+            if case["accepted"] and strip_docs(case["input"]) in plain_ok and strip_docs(case["input"]) != key:
+                seen.add(key)
+                res.violation(f"a description is rejected only because of its doc comments: {str(obs.get('msg'))[:160]}", payload(case, obs))
             continue
         seen.add(key)
         n_checked += 1
@@ -106,7 +123,8 @@ def run_attrs(pid, tier):
                         "emitted_T": {k: it["T"].get(k) for k in ("vis", "doc", "derives", "repr")}})
     cov.update({"evaluations": n_checked, "distinct_nontrivial": n_checked,
                 "rule": "three sweeps enumerated by TLC for MC_Attrs (2^6 visibility combinations; 2^4 x 2^3 marker subsets; eight doc "
-                        "line sequences incl. empty lines on each of seven item kinds) at both widths, replayed into pyxis; visibility, "
+                        "line sequences incl. empty lines on each of eight item kinds incl. a user-written `_` gap; the module "
+                        "carries a rust prologue holding an item) at both widths, replayed into pyxis; visibility, "
                         "derives, repr and doc attributes of every emitted item read with syn",
                 "model_level_violations": n_model})
     res.coverage = cov
